@@ -45,11 +45,54 @@ type Pool struct {
 	New   func() any
 	real  sync.Pool
 	items []any
+	mu    sync.Mutex // outside a simulation (sequential worlds): a plain LIFO stack
+	reg   bool
+}
+
+var (
+	poolsMu sync.Mutex
+	pools   []*Pool
+)
+
+func (p *Pool) register() {
+	poolsMu.Lock()
+	if !p.reg {
+		p.reg = true
+		pools = append(pools, p)
+	}
+	poolsMu.Unlock()
+}
+
+// ResetPools empties every pool of the instrumented tree: each simulated run starts like a fresh process.
+func ResetPools() {
+	poolsMu.Lock()
+	for _, p := range pools {
+		p.mu.Lock()
+		p.items = nil
+		p.mu.Unlock()
+	}
+	poolsMu.Unlock()
 }
 
 func (p *Pool) Get() any {
 	s := active.Load()
-	if s == nil || s.Opts.Mode == ModeFree {
+	if s == nil || s.Opts.Mode != ModeFree {
+		p.register()
+	}
+	if s == nil {
+		p.mu.Lock()
+		var v any
+		if n := len(p.items); n > 0 {
+			v = p.items[n-1]
+			p.items = p.items[:n-1]
+		}
+		p.mu.Unlock()
+		if v == nil && p.New != nil {
+			v = p.New()
+		}
+		return v
+	}
+	if s.Opts.Mode == ModeFree {
 		if v := p.real.Get(); v != nil {
 			return v
 		}
@@ -58,13 +101,13 @@ func (p *Pool) Get() any {
 		}
 		return nil
 	}
-	s.mu.Lock()
+	p.mu.Lock()
 	var v any
 	if n := len(p.items); n > 0 {
 		v = p.items[n-1]
 		p.items = p.items[:n-1]
 	}
-	s.mu.Unlock()
+	p.mu.Unlock()
 	if v != nil && s.Tape.F(8) == 7 {
 		v = nil // collected meanwhile
 	}
@@ -79,11 +122,19 @@ func (p *Pool) Put(x any) {
 		return
 	}
 	s := active.Load()
-	if s == nil || s.Opts.Mode == ModeFree {
+	if s == nil {
+		p.register()
+		p.mu.Lock()
+		p.items = append(p.items, x)
+		p.mu.Unlock()
+		return
+	}
+	if s.Opts.Mode == ModeFree {
 		p.real.Put(x)
 		return
 	}
-	s.mu.Lock()
+	p.register()
+	p.mu.Lock()
 	p.items = append(p.items, x)
-	s.mu.Unlock()
+	p.mu.Unlock()
 }
